@@ -199,6 +199,14 @@ def _labels(case, ctx):
     ops = G.operators(root)
     for o in sorted(ops):
         ctx.label("op:" + o)
+    for nd in G.walk(root):
+        if nd.get("t") == "op":
+            for side, x in (("left", nd["a"]), ("right", nd["b"])):
+                if x.get("t") == "q" and not x["u"] and x["v"] in (0, 1, -1, 2) and float(x["v"]) == x["v"]:
+                    ctx.label("literal:%s_of_%s" % (side, nd["op"]), "literal:%r" % (x["v"],))
+    b = case.get("b")
+    if b and b.get("t") == "q" and not b["u"] and b["v"] in (0, 1, -1, 2):
+        ctx.label("literal:wrap:" + case.get("wrap", "none"), "literal:%r" % (b["v"],))
     dep = G.depth(root)
     ctx.label("depth:%d" % dep)
     qs = G.case_quantities(case)
@@ -579,7 +587,8 @@ SUBCHECKS = [
              tolerances={"rtol_of_condition_scale": RTOL}),
     SubCheck("trees", check_expr, strategy=_with_sub(G.tree_cases(max_depth=4), "trees"), quick=1800, thorough=60000,
              rule="random trees (depth <= 4) over + - * / ** neg exp log10 with class, Constant, Symbol and literal "
-                  "leaves; MassAction (UnaryWrapper) products/quotients at the root",
+                  "leaves, literal operands 1 / 1.0 / 0 / -1 / 2 on either side of + - * / ** (the values algebraic "
+                  "shortcuts test for); MassAction (UnaryWrapper) products/quotients at the root, also with such literals",
              tolerances={"rtol_of_condition_scale": RTOL}),
     SubCheck("trees_deep", check_expr, strategy=_with_sub(G.tree_cases(max_depth=6, keyp=15), "trees"), quick=150,
              thorough=15000, rule="as trees, depth <= 6, more unique keys (values beyond 1e120 are not judged)",
